@@ -26,7 +26,12 @@ FUNCS = ['mathfuncs.within_tolerance', 'mathfuncs.percentage_as_number', 'compar
          'sampling.gen_symbols_samples', 'expressions.MathParser.parse', 'expressions.MathExpression.eval', 'expressions.evaluator',
          'MatrixGrader.check_response', 'ItemGrader.check', 'AbstractGrader.__call__']
 STUBS = ['SymSampler (author-defined VariableSamplingSet returning fresh symbolic reals)', 'expressions.np proxy (isinf/isnan elementwise on object arrays)']
-PCTS = ['0%', '0.01%', '5%', '10%', '250%']
+PCTS = ['0%', '0.01%', '5%', '10%', '250%', '0.00004%', '0.00016%', '1e-7%', '33.333333%']
+
+
+def pct_fraction(pct):
+    """the documented meaning of 'p%': p times one hundredth, in double arithmetic"""
+    return float(pct.strip()[:-1]) * 0.01
 
 
 def sabs(x):
@@ -44,9 +49,9 @@ def h_wt_abs(E):
 
 
 def h_wt_pct(E, pct):
-    from mitxgraders.helpers.calc.mathfuncs import within_tolerance, percentage_as_number
+    from mitxgraders.helpers.calc.mathfuncs import within_tolerance
     x, y = E.real('x'), E.real('y')
-    p = percentage_as_number(pct)
+    p = pct_fraction(pct)
     r = within_tolerance(x, y, pct)
     E.check('pct-tolerance-relative-to-expected', siff(r, near_le(sabs(x - y), sabs(x) * p)))
     return 'ok'
